@@ -144,8 +144,17 @@ def _check_minimize(prog, rep, fi, call):
 
     # ---- bounds: passed to the backend under which condition?  checked afterwards?
     passed = FALSE
+    defs = {}
     if "bounds" in kw:
         b = kw["bounds"]
+        # a plain local: use the expression it was (singly) assigned from, and remember the definition so that
+        # guards testing that local can be related to it
+        if isinstance(b, ast.Name) and len(assigns.get(b.id, [])) == 1 and isinstance(assigns[b.id][0], ast.IfExp):
+            e = assigns[b.id][0]
+            held = e.body if not (isinstance(e.body, ast.Constant) and e.body.value is None) else e.orelse
+            cond = formula(e.test) if held is e.body else Not(formula(e.test))
+            defs[b.id] = And(cond, atom(src(held))) if isinstance(held, ast.Name) else cond
+            b = e
         if isinstance(b, ast.IfExp):
             passed = formula(b.test) if not (isinstance(b.body, ast.Constant) and b.body.value is None) else Not(formula(b.test))
             # an empty bounds list means nothing was declared: nothing to pass
@@ -160,7 +169,12 @@ def _check_minimize(prog, rep, fi, call):
     Gb, Vb = FALSE, set()
     for lp, flags in bl:
         gs = dominating_guards(lp)
-        g = And(*[formula(t) if pol else Not(formula(t)) for t, pol in gs]) if gs else TRUE
+        g = And(*[_subst(formula(t), defs) if pol else Not(_subst(formula(t), defs)) for t, pol in gs]) if gs else TRUE
+        # the loop must range over the full bounds list: a list that is None/empty exactly when bounds were not
+        # passed checks nothing in the case that matters
+        it_names = {n.id for n in ast.walk(lp.iter) if isinstance(n, ast.Name)}
+        for nm in it_names & set(defs):
+            g = And(g, defs[nm])
         Gb = g if Gb is FALSE else Or(Gb, g)
         Vb |= flags
     rep.saw("bounds post-check loops", [f"{fname}:{lp.lineno}" for lp, _ in bl])
@@ -253,6 +267,15 @@ def _check_minimize(prog, rep, fi, call):
                    "the retry returns the recursive call's own result (which passes the same rules) and forwards problem, x0, tol, strict"
                    if ok else ("the retry's result is not returned directly" if not isinstance(p, ast.Return) else f"the retry does not forward {missing}"),
                    loc=f"{fi.module.rel}:{n.lineno}", detail="retry-forwards")
+
+
+def _subst(f, defs):
+    """Replace atoms that are locals with a known boolean definition."""
+    from ..logic import F
+
+    if f.op == "atom":
+        return defs.get(f.args[0], f)
+    return F(f.op, *[(_subst(a, defs) if isinstance(a, F) else a) for a in f.args])
 
 
 def _in_bounds_loop(x, fi, assigns, res):
